@@ -299,3 +299,112 @@ def accumulator_init_rule(chk, cid, prog, p, cfgname):
                     'initialising and %d accumulating store(s) before the BERR store: without the reset the denominator grows with every iterate and BERR is '
                     'under-reported' % (len(init_in), len(acc_in)), cfgname=cfgname)
     return n
+
+
+def matvec_pairing_rule(chk, cid, prog, fnames, cfgname, floor=8):
+    """Sum over the stored entries of column k of a compressed-column matrix: `for (i = colptr[k]; i < colptr[k+1]; ++i)`; entry i sits in row
+    rowind[i].  Whatever is accumulated - A*x, A'*x, |A||x|, |A'||x| - pairs each entry with one vector element and one target element, and
+    the two subscripts are the column index k and the row index rowind[i], one each (which is which selects op(A)).  Using the same one
+    twice (y[k] += |a| * x[k]) is neither A nor A': it is diag-like garbage that still has the right magnitude on easy inputs."""
+    from ..facts import canon
+    chk.clause(cid, 'a sum over the entries of a stored column pairs the column index with the row index (one for the vector, one for the target)')
+    n = 0
+    for fname in fnames:
+        f = prog.func(fname)
+        if f is None:
+            from ..run import AnalysisBroken
+            raise AnalysisBroken('%s not found' % fname)
+        chk.saw(unit=f.unit, func=f.unit + ':' + f.name)
+        for blk in f.body.walk():
+            if blk.k != 'Block':
+                continue
+            for bi, lp in enumerate(blk.c):
+                if lp.k != 'For' or lp.c[0] is None or lp.c[1] is None:
+                    continue
+                init, cond = strip(lp.c[0]), strip(lp.c[1])
+                if init.k != 'Assign' or strip(init.c[0]).k != 'Ref' or cond.k != 'Binary' or cond.a['op'] != '<':
+                    continue
+                ivar = strip(init.c[0]).a.get('id')
+                lo, hi = strip(init.c[1]), strip(cond.c[1])
+                if lo.k != 'Index' or hi.k != 'Index' or 'colptr' not in canon(lo.c[0], ids=False) or strip(lo.c[1]).k != 'Ref':
+                    continue
+                kvar = strip(lo.c[1]).a.get('id')
+                kname = strip(lo.c[1]).a.get('name')
+                body = lp.c[3]
+                rowvars = set()
+                for x in body.walk():
+                    if x.k == 'Assign' and x.a['op'] == '=' and strip(x.c[0]).k == 'Ref' and strip(x.c[1]).k == 'Index' \
+                            and 'rowind' in canon(strip(x.c[1]).c[0], ids=False):
+                        rowvars.add(strip(x.c[0]).a.get('id'))
+
+                def kind(sub):
+                    sub = strip(sub)
+                    if sub.k == 'Ref':
+                        if sub.a.get('id') == kvar:
+                            return 'col'
+                        if sub.a.get('id') in rowvars:
+                            return 'row'
+                    if sub.k == 'Index' and 'rowind' in canon(sub.c[0], ids=False):
+                        return 'row'
+                    return None
+
+                def vec_kind(e):
+                    """kind of the vector element inside e (|x[..]|, x[..], a scalar that was loaded from x[k] just before the loop)"""
+                    for y in e.walk():
+                        if y.k == 'Index' and strip(y.c[1]).k == 'Ref' and strip(y.c[1]).a.get('id') == ivar:
+                            return 'entry'
+                    for y in e.walk():
+                        if y.k == 'Index':
+                            kd = kind(y.c[1])
+                            if kd:
+                                return kd
+                    for y in e.walk():
+                        if y.k == 'Ref' and y.a.get('dk') == 'VarDecl':
+                            for prev in reversed(blk.c[:bi]):
+                                p0 = strip(prev)
+                                if p0.k == 'Assign' and strip(p0.c[0]).k == 'Ref' and strip(p0.c[0]).a.get('id') == y.a.get('id'):
+                                    for z in p0.c[1].walk():
+                                        if z.k == 'Index' and kind(z.c[1]):
+                                            return kind(z.c[1])
+                                    break
+                    return None
+                for asg in body.walk():
+                    if asg.k != 'Assign' or asg.a['op'] not in ('+=', '-='):
+                        continue
+                    prods = [y for y in asg.c[1].walk() if y.k == 'Binary' and y.a['op'] == '*']
+                    q = None
+                    for pr in prods:
+                        ka, kb = vec_kind(pr.c[0]), vec_kind(pr.c[1])
+                        if ka == 'entry' and kb in ('row', 'col'):
+                            q = kb
+                        elif kb == 'entry' and ka in ('row', 'col'):
+                            q = ka
+                    if q is None:
+                        continue
+                    lhs = strip(asg.c[0])
+                    r = None
+                    tgt = asg
+                    if lhs.k == 'Index':
+                        r = kind(lhs.c[1])
+                    elif lhs.k == 'Ref':
+                        for later in blk.c[bi + 1:]:
+                            l0 = strip(later)
+                            if l0.k == 'Assign' and strip(l0.c[0]).k == 'Index' and any(y.k == 'Ref' and y.a.get('id') == lhs.a.get('id') for y in l0.c[1].walk()):
+                                r = kind(strip(l0.c[0]).c[1])
+                                tgt = l0
+                                break
+                    if r is None:
+                        continue
+                    n += 1
+                    inst = '%s:column-sum-pairs-row-with-column@%d' % (fname, n)
+                    if {q, r} == {'row', 'col'}:
+                        chk.ok(cid, inst, sample='vector element by %s index, target `%s` by %s index' % (q, pretty(tgt)[:40], r))
+                    else:
+                        chk.violate(cid, inst, loc(f, asg), fname,
+                                    'the sum over the entries of column %s multiplies each entry by a vector element taken at the %s index and adds the result '
+                                    'to a target element at the %s index as well (`%s` ... `%s`): that is neither op(A) = A nor its transpose; the entry in row '
+                                    'rowind[i] must meet the other index' % (kname, q, r, pretty(asg)[:60], pretty(tgt)[:40]), cfgname=cfgname)
+    if n < floor:
+        from ..run import AnalysisBroken
+        raise AnalysisBroken('%s: %d column sums found, floor %d' % (cid, n, floor))
+    return n
